@@ -285,7 +285,7 @@ theorem C14_until_rounded_reaches_other (tz : TZ) (ns1 ns2 : Int) (L : TUnit) (d
         r.nudgeEpochNs - ns2 < 2 * ((len : Int) * o.increment)) ∧
       ((r.expanded = false ∨ (e - s) % ((len : Int) * o.increment) = 0) →
         -((len : Int) * o.increment) < r.nudgeEpochNs - ns2 ∧ r.nudgeEpochNs - ns2 < (len : Int) * o.increment) := by
-  obtain ⟨mid, ins, hadd, hins, hsum⟩ := zdtDiffZoned_bracket tz ns1 ns2 L date td dt hne hd hdt
+  obtain ⟨mid, ins, hadd, hins, hsum, _, _, _, _⟩ := zdtDiffZoned_bracket tz ns1 ns2 L date td dt hne hd hdt
   have hb0 : ∃ se, zonedDayBracket tz sign dt date = .ok se := by
     unfold nudgeToZonedTime at h
     obtain ⟨se, hse, _⟩ := Out.bind_eq_ok h
@@ -305,6 +305,79 @@ theorem C14_until_rounded_reaches_other (tz : TZ) (ns1 ns2 : Int) (L : TUnit) (d
   refine ⟨s, e, hb, hsum, ?_, ?_⟩
   · rw [← hsum]; exact h2
   · intro hh; rw [← hsum]; exact h1 hh
+
+/-- **C14 (the inverse law, proved).** For two different instants and any largest unit, when `until` without rounding
+succeeds with the duration `du`, `add(du)` maps the receiver exactly onto the other instant - provided the date part
+is not zero, or the receiver is the instant its own wall-clock reading resolves to under `compatible` (it is not the
+later copy of a repeated reading: for that case the specified algorithm measures the time part from the earlier copy,
+the recorded finding), and the intermediate date-time is inside the date-time limits (it always is except for the
+excluded first midnight). -/
+theorem C14_add_until_inverse (tz : TZ) (ns1 ns2 : Int) (L : TUnit) (date : Dur) (td : Int) (dt : IsoDateTime)
+    (du : Dur) (hne : ns1 ≠ ns2) (h2 : isValidEpochNanos ns2 = true)
+    (hd : zdtDiffZoned tz ns1 ns2 L = .ok (date, td)) (hdt : tz.isoDateTimeFor ns1 = .ok dt)
+    (hdu : durFromNormalized date td .hour = .ok du)
+    (hc : date.sign ≠ 0 ∨ tz.epochNsFor dt .compatible = .ok ns1)
+    (hlim : ∀ mid, plainDateAdd dt.date (dateDur date.years date.months date.weeks date.days) .constrain = .ok mid →
+      isoDtWithinValidLimits mid dt.time = true) :
+    zdtAdd tz ns1 du .constrain = .ok ns2 := by
+  obtain ⟨mid, ins, hadd, hins, hsum, hdate, hdays, htb, hrdt⟩ := zdtDiffZoned_bracket tz ns1 ns2 L date td dt hne hd hdt
+  -- the balanced duration: the date part as it is, the time part in hours and below, no days added
+  unfold durFromNormalized at hdu
+  obtain ⟨t, ht, hdu⟩ := Out.bind_eq_ok hdu
+  have hdu := durNew_eq_ok hdu
+  have htd0 : t.days = 0 := timeFromNormalized_days_zero td .hour 5 rfl (by omega) t ht
+  obtain ⟨t', ht', htot, _, hy0, hm0, hw0, _⟩ := timeFromNormalized_exact td .hour 5 rfl (by omega) htb
+  rw [ht] at ht'; cases ht'
+  have htime : t.timeNs = td := by
+    have : t.totalNs = t.days * 86400000000000 + t.timeNs := rfl
+    rw [this, htd0] at htot; omega
+  have hof : F64.ofInt (date.days + t.days) = date.days := by
+    rw [htd0, Int.add_zero]; exact ofInt_small _ (by omega)
+  rw [hof] at hdu
+  subst hdu
+  have hduT : (⟨date.years, date.months, date.weeks, date.days, t.hours, t.minutes, t.seconds, t.milliseconds,
+      t.microseconds, t.nanoseconds⟩ : Dur).timeNs = td := htime
+  have hsgn : (dateDur date.years date.months date.weeks date.days).sign = date.sign := by rw [← hdate]
+  have hok2 : TZ.epochNs ns2 = .ok ns2 := by unfold TZ.epochNs; rw [if_pos h2]
+  unfold zdtAdd
+  simp only
+  by_cases hz : date.sign = 0
+  · -- no date part: exact addition from the receiver, which is the start of the bracket
+    rw [hsgn, if_pos hz]
+    have hcomp : tz.epochNsFor dt .compatible = .ok ns1 := by
+      rcases hc with hc | hc
+      · exact absurd hz hc
+      · exact hc
+    have hall : date.years = 0 ∧ date.months = 0 ∧ date.weeks = 0 ∧ date.days = 0 := by
+      unfold Dur.sign at hz
+      rcases signOf_cases date.fields with ⟨_, h⟩ | ⟨e, _⟩ | ⟨e, _⟩
+      · exact ⟨h _ (by simp [Dur.fields]), h _ (by simp [Dur.fields]), h _ (by simp [Dur.fields]),
+          h _ (by simp [Dur.fields])⟩
+      · omega
+      · omega
+    rw [hall.1, hall.2.1, hall.2.2.1, hall.2.2.2] at hadd
+    have hself := plainDateAdd_internalDiff dt.date dt.date .day Dur.zero hrdt hrdt (by simp [plainDateInternalDiff])
+    have hmid : mid = dt.date := by
+      have : (Out.ok mid : Out IsoDate) = .ok dt.date := by rw [← hadd]; exact hself
+      cases this; rfl
+    subst hmid
+    rw [hcomp] at hins
+    cases hins
+    unfold addToInstant
+    rw [hduT, hsum]; exact hok2
+  · rw [hsgn, if_neg hz, hdt]
+    simp only [Out.bind_ok]
+    rw [hadd]
+    simp only [Out.bind_ok, hlim mid hadd, Bool.not_true, Bool.false_eq_true, if_false, hins]
+    unfold addToInstant
+    rw [hduT, hsum]; exact hok2
+
+/-- Non-vacuity of the hypotheses: with one hour skipped at 02:00 local on 1970-01-02, from midnight of 1970-01-01 to
+03:00 local on 1970-01-02 are one day and two elapsed hours (not three): `until` reports P1DT2H and `add` maps the
+receiver back onto the other instant. -/
+example : zdtDiffZoned (.named ⟨0, [(93600, 3600)]⟩) 0 93600000000000 .day = .ok (dateDur 0 0 0 1, 7200000000000) ∧
+    zdtAdd (.named ⟨0, [(93600, 3600)]⟩) 0 ⟨0, 0, 0, 1, 2, 0, 0, 0, 0, 0⟩ .constrain = .ok 93600000000000 := by
+  decide +kernel
 
 /-- **C14 (compare relative to a zoned date-time).** Two different durations, at least one with a date unit, are
 ordered as the instants `add` maps the reference to (wall-clock for the date parts, exact for the time parts). -/
@@ -339,3 +412,4 @@ end TemporalModel
 #print axioms TemporalModel.C14_relative_without_zone
 #print axioms TemporalModel.C14_compare_zoned_orders_destinations
 #print axioms TemporalModel.C14_until_rounded_reaches_other
+#print axioms TemporalModel.C14_add_until_inverse
